@@ -1059,6 +1059,11 @@ func mutationPass(rep *vh.Report, prop string, pool *sync.Map) int64 {
 		for _, enc := range encs {
 			for i := 0; i < perCase; i++ {
 				mut, how := garble(rng, enc.data)
+				if i%4 == 3 {
+					if m, h, ok := fieldMutate(rng, tc.Req.K, enc); ok {
+						mut, how = m, h
+					}
+				}
 				if bytes.Equal(mut, enc.data) {
 					continue
 				}
@@ -1085,6 +1090,113 @@ func mutationPass(rep *vh.Report, prop string, pool *sync.Map) int64 {
 }
 
 func sortStrings(s []string) { sort.Strings(s) }
+
+// weird returns boundary values for an integer proof field.
+func weird(rng *rand.Rand, cur int64) int64 {
+	vals := []int64{-1, 0, 1, cur + 1, cur - 1, cur + 2, 2 * cur, 1 << 31, 1<<31 - 1, 1 << 32, 1<<62 + 1, -(1 << 31), -cur}
+	return vals[rng.Intn(len(vals))]
+}
+
+func mutateProof(rng *rand.Rand, p *nmt_pb.Proof) string {
+	if p == nil {
+		return ""
+	}
+	switch rng.Intn(6) {
+	case 0:
+		p.Start = weird(rng, p.Start)
+		return fmt.Sprintf("proof.start=%d", p.Start)
+	case 1:
+		p.End = weird(rng, p.End)
+		return fmt.Sprintf("proof.end=%d", p.End)
+	case 2:
+		d := weird(rng, 1)
+		p.Start += d
+		p.End += d
+		return fmt.Sprintf("proof.shift%+d", d)
+	case 3:
+		if len(p.Nodes) > 0 {
+			i := rng.Intn(len(p.Nodes))
+			p.Nodes[i] = append([]byte{}, p.Nodes[i][:rng.Intn(len(p.Nodes[i])+1)]...)
+			return fmt.Sprintf("proof.node%d truncated to %d bytes", i, len(p.Nodes[i]))
+		}
+		p.Nodes = [][]byte{make([]byte, 90)}
+		return "proof.nodes=[zero node]"
+	case 4:
+		if len(p.LeafHash) > 0 {
+			p.LeafHash = p.LeafHash[:rng.Intn(len(p.LeafHash))]
+			return "proof.leafhash truncated"
+		}
+		p.LeafHash = make([]byte, 90)
+		return "proof.leafhash=zero"
+	default:
+		if len(p.Nodes) > 1 {
+			i, j := rng.Intn(len(p.Nodes)), rng.Intn(len(p.Nodes))
+			p.Nodes[i], p.Nodes[j] = p.Nodes[j], p.Nodes[i]
+			return fmt.Sprintf("proof.nodes swap %d,%d", i, j)
+		}
+		p.IsMaxNamespaceIgnored = !p.IsMaxNamespaceIgnored
+		return "proof.flag"
+	}
+}
+
+// fieldMutate decodes a single-message encoding into its protobuf struct, sets one field to a
+// boundary value (negative / huge start and end, truncated nodes, unknown enum values, short
+// shares) and encodes it again.
+func fieldMutate(rng *rand.Rand, kind string, enc encoding) ([]byte, string, bool) {
+	switch {
+	case kind == "sample":
+		var m shwappb.Sample
+		if _, err := serde.Read(bytes.NewReader(enc.data), &m); err != nil {
+			return nil, "", false
+		}
+		switch rng.Intn(4) {
+		case 0:
+			m.ProofType = shwappb.AxisType(weird(rng, int64(m.ProofType)))
+			return frame(&m), fmt.Sprintf("sample.proof_type=%d", m.ProofType), true
+		case 1:
+			if m.Share != nil && len(m.Share.Data) > 0 {
+				m.Share.Data = m.Share.Data[:rng.Intn(len(m.Share.Data))]
+				return frame(&m), fmt.Sprintf("sample.share truncated to %d", len(m.Share.Data)), true
+			}
+		}
+		if how := mutateProof(rng, m.Proof); how != "" {
+			return frame(&m), "sample." + how, true
+		}
+	case kind == "rnd":
+		var m shwappb.RowNamespaceData
+		if _, err := serde.Read(bytes.NewReader(enc.data), &m); err != nil {
+			return nil, "", false
+		}
+		if how := mutateProof(rng, m.Proof); how != "" {
+			return frame(&m), "rnd." + how, true
+		}
+	case kind == "row":
+		var m shwappb.Row
+		if _, err := serde.Read(bytes.NewReader(enc.data), &m); err != nil {
+			return nil, "", false
+		}
+		m.HalfSide = shwappb.Row_HalfSide(weird(rng, int64(m.HalfSide)))
+		return frame(&m), fmt.Sprintf("row.half_side=%d", m.HalfSide), true
+	case kind == "range" && enc.codec == "proto":
+		var m shwappb.RangeNamespaceData
+		if err := m.Unmarshal(enc.data); err != nil {
+			return nil, "", false
+		}
+		pf := m.FirstIncompleteRowProof
+		name := "range.first."
+		if pf == nil || rng.Intn(2) == 0 && m.LastIncompleteRowProof != nil {
+			pf, name = m.LastIncompleteRowProof, "range.last."
+		}
+		if how := mutateProof(rng, pf); how != "" {
+			raw, err := m.Marshal()
+			if err != nil {
+				return nil, "", false
+			}
+			return raw, name + how, true
+		}
+	}
+	return nil, "", false
+}
 
 // garble applies one random mutation; offsets are biased towards structure (framing, tags, proof
 // fields) rather than share payload, where every flip trivially breaks the hash.
